@@ -621,14 +621,17 @@ fn srv_main(a: &Args) {
     let max_n = a.num("--max-n", 1500);
     let first_big = logs.len();
     for k in 0..n_logs {
-        let n = if k == 0 { 40 } else { rng.range(200, max_n) } as usize;
-        let msgs = gen_log(&mut rng, n, &ECUS, &APIDS, &CTIDS);
+        // log 0: small (all page sizes / start positions); log 1: short time span (arrives as one burst);
+        // others: long time span (streams through in several batches while it is parsed)
+        let n = if k == 0 { 40 } else if k == 1 { rng.range(200, 500) } else { rng.range(std::cmp::min(800, max_n), max_n) } as usize;
+        let msgs = if k <= 1 { gen_log(&mut rng, n, &ECUS, &APIDS, &CTIDS) } else { gen_log_dt(&mut rng, n, &ECUS, &APIDS, &CTIDS, 100, 400) };
         let path = format!("{}/log-{}.dlt", dir, k);
         write_log(&path, &msgs);
         logs.push(LogFile { path, msgs });
     }
     for k in 0..n_random {
-        let li = first_big + (k % n_logs);
+        // one third of the sessions on the small / burst logs, two thirds on the logs that stream through
+        let li = first_big + if k % 3 == 0 || n_logs < 3 { (k / 3) % std::cmp::min(2, n_logs) } else { 2 + (k % (n_logs - 2)) };
         let n = logs[li].msgs.len() as u64;
         let kind = if rng.chance(1, 4) { "query" } else { "stream" };
         let filt = random_filters(&mut rng, true);
@@ -656,14 +659,18 @@ fn srv_main(a: &Args) {
             lookups.push(("time".to_string(), 0));
             lookups.push(("time".to_string(), logs[li].msgs.last().unwrap().t_ms + 5));
         }
+        // on the logs that stream through while they are parsed: mostly wide windows requested during parsing, so that
+        // arrival batch boundaries fall inside the window
+        let streaming = li >= first_big + 2;
+        let win = if streaming && kind == "stream" && rng.chance(2, 3) { (rng.below(30), n + 100) } else { random_window(&mut rng, n) };
         cases.push(SrvCase {
             src: "random".into(),
             log: li,
             kind: kind.into(),
-            late: if kind == "query" && !paused_query { true } else { rng.chance(1, 3) },
+            late: if kind == "query" && !paused_query { true } else if streaming { rng.chance(1, 6) } else { rng.chance(1, 3) },
             paused_query,
             filt,
-            win: random_window(&mut rng, n),
+            win,
             early_change: if kind == "stream" && rng.chance(1, 4) { Some(random_window(&mut rng, n)) } else { None },
             // a query that is not paused ends by itself: its window can only be changed while the session is paused
             changes: if kind == "query" && !paused_query { vec![] } else { (0..nchg).map(|_| random_window(&mut rng, n)).collect() },
